@@ -526,6 +526,7 @@ func (w *World) basePrelude() []string {
 		"(declare-fun ibitand (Int Int) Int)",
 		"(declare-fun ibitor (Int Int) Int)",
 		"(declare-fun ishl (Int Int) Int)",
+		"(define-fun streq ((a String) (b String)) Bool (= a b))",
 	}
 }
 
@@ -643,4 +644,8 @@ func (w *World) elemTerm(ss, es, h, s, i string) string {
 	w.decl("fn:"+fn, fmt.Sprintf("(declare-fun %s ((Array Int (Array Int %s)) %s Int) %s)\n(assert (forall ((h (Array Int (Array Int %s))) (s %s) (i Int)) (! (= (%s h s i) (select (select h (arr_%s s)) (+ (off_%s s) i))) :pattern ((%s h s i)))))",
 		fn, es, ss, es, es, ss, fn, ss, ss, fn))
 	return fmt.Sprintf("(%s %s %s %s)", fn, h, s, i)
+}
+
+func (w *World) structID(t types.Type) int {
+	return w.typeID(types.NewPointer(origin(types.Unalias(t)))) + 1000
 }
